@@ -353,7 +353,8 @@ func main() {
 				} else {
 					var k keyid.KeyID
 					fl := c.Rand.Intn(16)
-					k = keyid.KeyID{IsFirefighter: fl&1 != 0, IsHWKey: fl&2 != 0, IsHeadless: fl&4 != 0, IsNonce: fl&8 != 0, TouchPolicy: keyid.TouchPolicy(c.Rand.Intn(5)), Usage: keyid.Usage(c.Rand.Intn(2)), Version: uint16(c.Rand.Intn(3))}
+					k = keyid.KeyID{IsFirefighter: fl&1 != 0, IsHWKey: fl&2 != 0, IsHeadless: fl&4 != 0, IsNonce: fl&8 != 0, TouchPolicy: keyid.TouchPolicy(c.Rand.Intn(5)), Usage: keyid.Usage(c.Rand.Intn(2))}
+					setInt(&k.Version, int64(c.Rand.Intn(3)))
 					if c.Rand.Intn(3) > 0 {
 						k.Version = 1
 					}
